@@ -1,0 +1,58 @@
+//! MRT file-in unit: importing files (property C16). The real queue loop
+//! (`MrtInRunner::run`), `process_file` and the HTTP queue endpoint, started
+//! outside of a running application, plus a link target that records what
+//! leaves the unit's gate.
+use std::sync::{Arc, Mutex};
+
+use async_trait::async_trait;
+
+use crate::comms::{AnyDirectUpdate, DirectUpdate};
+use crate::payload::Update;
+
+pub use crate::units::verif_mrt_file_in::{MrtFileIn, MrtInRunner, VerifUnit};
+/// The compression crates `process_file` decodes with, so that a harness
+/// writes its files with the very same versions.
+pub use bzip2;
+pub use flate2;
+
+/// A direct-update link target: records every update (in arrival order) and
+/// hands it to `next` (for instance a RIB unit) before returning, the way a
+/// downstream unit's `direct_update` runs inside `Gate::update_data`.
+pub struct Capture<F> {
+    pub seen: Mutex<Vec<Update>>,
+    next: F,
+}
+
+impl<F> std::fmt::Debug for Capture<F> {
+    fn fmt(&self, f: &mut std::fmt::Formatter<'_>) -> std::fmt::Result {
+        f.write_str("Capture")
+    }
+}
+
+impl<F> Capture<F> {
+    pub fn new(next: F) -> Arc<Self> {
+        Arc::new(Capture { seen: Mutex::new(vec![]), next })
+    }
+    pub fn take(&self) -> Vec<Update> {
+        std::mem::take(&mut *self.seen.lock().unwrap())
+    }
+}
+
+#[async_trait]
+impl<F, Fut> DirectUpdate for Capture<F>
+where
+    F: Fn(Update) -> Fut + Send + Sync + 'static,
+    Fut: std::future::Future<Output = ()> + Send,
+{
+    async fn direct_update(&self, update: Update) {
+        self.seen.lock().unwrap().push(update.clone());
+        (self.next)(update).await;
+    }
+}
+
+impl<F, Fut> AnyDirectUpdate for Capture<F>
+where
+    F: Fn(Update) -> Fut + Send + Sync + 'static,
+    Fut: std::future::Future<Output = ()> + Send,
+{
+}
